@@ -112,97 +112,141 @@ def drain (c : Cfg) (resolve : Str → Res) : Pop → List Str → Except IErr (
       | .splice (x :: l) => (drain c resolve .prologue rest).map (fun r => x :: l ++ r)
     else (drain c resolve .prologue rest).map (p :: ·)
 
-/-- `Reader.feedTail` with the queue drained through `include()`. -/
-def feedTailI (c : Cfg) (resolve : Str → Res) (m : Marks) (s : RS) (line : Str) : Except IErr (RS × List Str) :=
+/-- the end of a loop iteration, first half: the alt-block counters advance, the piece is appended to
+    the buffer -/
+def tailState (s : RS) (line : Str) : RS :=
   let s := if s.readingAlt > 0 then { s with readingAlt := s.readingAlt + 1 } else s
   let s := if s.readingPredocAlt > 0 then { s with readingPredocAlt := s.readingPredocAlt + 1 } else s
-  let s := { s with linebuffer := s.linebuffer ++ line }
-  let done := (!s.docbuffer.isEmpty || !s.linebuffer.isEmpty) && !s.continued
-              && !s.readingPredoc && s.readingPredocAlt == 0
-  if !done then .ok (s, []) else
-    let frags := quoteSplit ';' s.linebuffer
-    let pending := (frags.filter (fun f => !f.isEmpty)).map strip
+  { s with linebuffer := s.linebuffer ++ line }
+
+/-- `done`: the logical line (or the preceding doc block) is complete -/
+def tailDone (s : RS) : Bool :=
+  (!s.docbuffer.isEmpty || !s.linebuffer.isEmpty) && !s.continued && !s.readingPredoc && s.readingPredocAlt == 0
+
+/-- `[s.strip() for s in quote_split(";", linebuffer) if len(s) > 0]` -/
+def splitPending (s : RS) : List Str :=
+  ((quoteSplit ';' s.linebuffer).filter (fun f => !f.isEmpty)).map strip
+
+/-- the state after a completed logical line whose items have all been returned -/
+def afterLine (s : RS) (pd : Bool) : RS :=
+  { docbuffer := [], prevdoc := pd, readingAlt := s.readingAlt, continued := false,
+    readingPredoc := false, readingPredocAlt := 0, linebuffer := [] }
+
+/-- `Reader.feedTail` with the queue drained through `include()`. -/
+def feedTailI (c : Cfg) (resolve : Str → Res) (m : Marks) (s : RS) (line : Str) : Except IErr (RS × List Str) :=
+  let s := tailState s line
+  if !tailDone s then .ok (s, []) else
+    let pending := splitPending s
     if pending.isEmpty && s.docbuffer.isEmpty then .error (.reader .internal) else
     match drain c resolve .epilogue pending with
     | .error e => .error e
     | .ok drained =>
-      let (items, pd) := flush m drained s.docbuffer s.prevdoc
-      .ok ({ docbuffer := [], prevdoc := pd, readingAlt := s.readingAlt, continued := false,
-             readingPredoc := false, readingPredocAlt := 0, linebuffer := [] }, items)
+      .ok (afterLine s (flush m drained s.docbuffer s.prevdoc).2, (flush m drained s.docbuffer s.prevdoc).1)
 
-/-- `Reader.feed` (one physical line) with `feedTailI` in the place of `feedTail`; the text in front
-    of the four calls is that of `Reader.feed`. -/
-def feedI (c : Cfg) (resolve : Str → Res) (m : Marks) (s : RS) (line0 : Str) : Except IErr (RS × List Str) :=
-  let inQuote := unterminated s.linebuffer
-  if firstStripped line0 == some '#' then .ok (s, []) else
-  let r1 : Except IErr RS :=
-    match matchDocmark m.pre line0 inQuote with
-    | some i =>
-      let s' := { s with readingPredoc := true, readingAlt := 0, readingPredocAlt := 0,
-                         docbuffer := s.docbuffer ++ [substMark m.doc m.pre.length (line0.drop i)] }
-      if !(isBlank (line0.take i)) then .error (.reader .predocInline) else .ok s'
-    | none => .ok s
-  match r1 with
-  | .error e => .error e
-  | .ok s =>
-  let r2 : Except IErr RS :=
-    match matchDocmark m.preAlt line0 inQuote with
-    | some i =>
-      let s' := { s with readingPredocAlt := 1, readingAlt := 0, readingPredoc := false,
-                         docbuffer := s.docbuffer ++ [substMark m.doc m.preAlt.length (line0.drop i)] }
-      if !(isBlank (line0.take i)) then .error (.reader .predocAltInline) else .ok s'
-    | none => .ok s
-  match r2 with
-  | .error e => .error e
-  | .ok s =>
-  let r3 : Except IErr RS :=
-    match matchDocmark m.alt line0 inQuote with
-    | some i =>
-      let s' := { s with readingAlt := 1, readingPredoc := false, readingPredocAlt := 0,
-                         docbuffer := s.docbuffer ++ [substMark m.doc m.alt.length (line0.drop i)] }
-      if !(isBlank (line0.take i)) then .error (.reader .altInline) else .ok s'
-    | none => .ok s
-  match r3 with
-  | .error e => .error e
-  | .ok s =>
-  let (s, line) : RS × Str :=
-    match matchDocmark m.doc line0 inQuote with
-    | some i => ({ s with readingAlt := 0, readingPredocAlt := 0,
-                          docbuffer := s.docbuffer ++ [line0.drop i] }, line0.take i)
-    | none => (s, line0)
+/-- one of the three doc-mark tests that only buffer (`predocmark`, `predocmark_alt`, `docmark_alt`):
+    on a match the line's comment goes to `docbuffer` with the mark replaced by the docmark, the block
+    flags are set by `upd`, and text in front of the comment is an error -/
+def markStage (doc mark : Str) (err : RErr) (upd : RS → RS) (inQuote : Bool) (line0 : Str) (s : RS) : Except IErr RS :=
+  match matchDocmark mark line0 inQuote with
+  | some i =>
+    let s' := { upd s with docbuffer := s.docbuffer ++ [substMark doc mark.length (line0.drop i)] }
+    if !(isBlank (line0.take i)) then .error (.reader err) else .ok s'
+  | none => .ok s
+
+/-- the docmark test: the doc comment is buffered and cut off the line -/
+def docStage (m : Marks) (inQuote : Bool) (line0 : Str) (s : RS) : RS × Str :=
+  match matchDocmark m.doc line0 inQuote with
+  | some i => ({ s with readingAlt := 0, readingPredocAlt := 0,
+                        docbuffer := s.docbuffer ++ [line0.drop i] }, line0.take i)
+  | none => (s, line0)
+
+/-- anything but a comment line ends an alternate block -/
+def blockStage (line : Str) (s : RS) : RS :=
   let fc := firstStripped line
   let s := if fc.isNone || fc != some '!' then { s with readingAlt := 0 } else s
-  let s := if fc.isSome && fc != some '!' then { s with readingPredocAlt := 0 } else s
-  let (s, line) : RS × Str :=
-    match matchCom line inQuote with
-    | some i =>
-      let s := if (s.readingPredocAlt > 1 || s.readingAlt > 1) && isBlank (line.take i)
-               then { s with docbuffer := s.docbuffer ++ [('!' :: m.doc) ++ (line.drop i).drop 1] }
-               else s
-      (s, line.take i)
-    | none => (s, line)
-  let line := strip line
+  if fc.isSome && fc != some '!' then { s with readingPredocAlt := 0 } else s
+
+/-- ordinary comments are cut off (inside an alternate block a whole-line comment is documentation) -/
+def comStage (m : Marks) (inQuote : Bool) (line : Str) (s : RS) : RS × Str :=
+  match matchCom line inQuote with
+  | some i =>
+    let s := if (s.readingPredocAlt > 1 || s.readingAlt > 1) && isBlank (line.take i)
+             then { s with docbuffer := s.docbuffer ++ [('!' :: m.doc) ++ (line.drop i).drop 1] }
+             else s
+    (s, line.take i)
+  | none => (s, line)
+
+/-- the loop body of `__next__` on one physical line, up to the if/else on the stripped line (the
+    text of `Reader.feed`, in stages): `none` = a `#` line (`continue`), otherwise the state and the
+    stripped line without its comment / documentation -/
+def feedFront (m : Marks) (s : RS) (line0 : Str) : Except IErr (Option (RS × Str)) :=
+  let inQuote := unterminated s.linebuffer
+  if firstStripped line0 == some '#' then .ok none else
+  match markStage m.doc m.pre .predocInline
+      (fun s => { s with readingPredoc := true, readingAlt := 0, readingPredocAlt := 0 }) inQuote line0 s with
+  | .error e => .error e
+  | .ok s =>
+  match markStage m.doc m.preAlt .predocAltInline
+      (fun s => { s with readingPredocAlt := 1, readingAlt := 0, readingPredoc := false }) inQuote line0 s with
+  | .error e => .error e
+  | .ok s =>
+  match markStage m.doc m.alt .altInline
+      (fun s => { s with readingAlt := 1, readingPredoc := false, readingPredocAlt := 0 }) inQuote line0 s with
+  | .error e => .error e
+  | .ok s =>
+  let sl := docStage m inQuote line0 s
+  let sl2 := comStage m inQuote sl.2 (blockStage sl.2 sl.1)
+  .ok (some (sl2.1, strip sl2.2))
+
+/-- how the if/else on the stripped line ends: an exception, a `continue`, or on to the end of the
+    loop body with this state and this piece of the logical line -/
+inductive Back
+  | err (e : IErr)
+  | skip (s : RS)
+  | tail (s : RS) (line : Str)
+
+/-- the if/else on the stripped line: empty line (a doc line of nothing after documentation), leading
+    `&`, trailing `&` -/
+def feedBack (m : Marks) (s : RS) (line : Str) : Back :=
   match line with
   | [] =>
     let s := if s.prevdoc && s.docbuffer.isEmpty then { s with docbuffer := ['!' :: m.doc] } else s
-    feedTailI c resolve m s []
+    .tail s []
   | ch :: rest =>
     let s := { s with readingPredoc := false, readingPredocAlt := 0, readingAlt := 0 }
     if ch == '&' then
       if s.continued then
-        if isBlank rest then .ok (s, [])
+        if isBlank rest then .skip s
         else
           let (s, line) := if rest.getLast? == some '&' then ({ s with continued := true }, rest.dropLast)
                            else ({ s with continued := false }, rest)
-          feedTailI c resolve m s line
-      else if rest.isEmpty then .ok (s, [])
-      else .error (.reader .ampStart)
+          .tail s line
+      else if rest.isEmpty then .skip s
+      else .err (.reader .ampStart)
     else
       let s := { s with linebuffer := strip s.linebuffer ++ [' '] }
       let line := ch :: rest
       let (s, line) := if line.getLast? == some '&' then ({ s with continued := true }, line.dropLast)
                        else ({ s with continued := false }, line)
-      feedTailI c resolve m s line
+      .tail s line
+
+/-- One iteration of the `while not done` loop on one physical line, with the end of the loop body
+    (`tail`) and the value of a `continue` (`skip`) as parameters: the batch reader plugs in
+    `feedTailI`, the call-by-call reader (`PassBack.lean`) its raw tail. -/
+def feedG {β : Type} (skip : β) (tail : RS → Str → Except IErr (RS × β)) (m : Marks) (s : RS) (line0 : Str) :
+    Except IErr (RS × β) :=
+  match feedFront m s line0 with
+  | .error e => .error e
+  | .ok none => .ok (s, skip)
+  | .ok (some (s1, line)) =>
+    match feedBack m s1 line with
+    | .err e => .error e
+    | .skip s2 => .ok (s2, skip)
+    | .tail s2 l2 => tail s2 l2
+
+/-- `Reader.feed` (one physical line) with `feedTailI` in the place of `feedTail`. -/
+def feedI (c : Cfg) (resolve : Str → Res) (m : Marks) (s : RS) (line0 : Str) : Except IErr (RS × List Str) :=
+  feedG [] (feedTailI c resolve m) m s line0
 
 def readFromI (c : Cfg) (resolve : Str → Res) (m : Marks) : RS → List Str → Except IErr (List Str)
   | _, [] => .ok []
